@@ -64,6 +64,7 @@ def stream_coverage(out, st, cases, rule, nontrivial, extra=None):
         "input_distribution": stream.distribution(cases),
         "grammars": len({c.g.gid for c in cases}),
         "stream_wall_s": round(st.get("wall", 0), 1),
+        "grammars_dropped_model_limits": len(st.get("skipped_grammars", [])),
     }
     if extra:
         cov.update(extra)
@@ -74,3 +75,30 @@ def plain(c):
     """inside the quantifier of the M-vs-S theorems: pure hooks, no memo/leftrec"""
     m = c.g.meta
     return not m["ctx"] and not m["memo"] and not m["leftrec"]
+
+
+# what each property's theorems assume (hypotheses of the statements) and what its check trusts
+ASSUME = {
+ "C01": ["theorems: grammars without @memoize/@leftrec (C01_conform) or with @memoize only (C01_memoized); hooks are pure oracles; input is valid UTF-8 (a Rust &str)",
+         "oracle: generated grammars and inputs only; grammars whose model run exceeds the time/memory limits are dropped and counted"],
+ "C02": ["as C01; Debug output of the generated types is parsed back by lib/canon.py"],
+ "C03": ["recursive type cycles broken by * or Vec; names do not collide with prelude/peginator items or the generator's locals (state, global, iterations, __result)",
+         "rustc 1.95 accepts = compiles"],
+ "C04": ["input is valid UTF-8; extern functions return a byte length on a character boundary within the remaining input; stack depth is not modelled"],
+ "C05": ["C05_transparent: no @leftrec rule in the grammar; hook results do not depend on the user state; statement is about results whenever both parsers return"],
+ "C06": ["C06_entry_after_return needs the wrapper closed around early exits (fact memo_closed); re-entrance through @leftrec is a known finding"],
+ "C07": ["C07_bound: body evaluations return and their end offsets are bounded by the input length; strict progress test (fact further_gt)"],
+ "C08": ["as C01 for the theorem part; the skip-point oracle uses the implementation's own tracer callbacks"],
+ "C09": ["as C01; values produced by extern functions carry no positions"],
+ "C10": ["C10_furthest: plain grammars, pure hooks; C10_real: none (every grammar, stateful hooks)"],
+ "C11": ["std's char_indices = offsets of non-continuation bytes; colours off"],
+ "C12": ["the syntax reference is formalised by grammar.ebnf itself plus the generator's printer"],
+ "C13": ["includes of normal rules; the inlined twin is produced by the generator's printer"],
+ "C14": ["hook functions are deterministic; the recording hook library of harness/gen/hooks.rs mirrors Hooks.v"],
+ "C15": ["C15_terminates: a rank decreasing along every include exists; the four known-finding classes are excluded by model predicates"],
+ "C16": ["ambient inputs are found by a source scan (scan_ambient), not proved absent"],
+ "C17": ["the re-bootstrap is an execution of the tree's own generator and rustc"],
+ "C18": ["file system = map from paths to contents; CRC-32 is an abstract function with collisions; rustfmt not modelled"],
+ "C19": ["C19_tracer_independent / C19_balanced: none (every grammar, stateful hooks); a concrete tracer's state is a function of the callbacks it receives"],
+ "C20": ["no process-wide mutable state in the modelled crates (scan_shared_state); thread schedules of the real runtime are observed, not enumerated"],
+}
